@@ -145,7 +145,9 @@ pub fn real_with<R>(t: &T, kk: &mut dyn FnMut(&dyn Aml) -> R) -> R {
         T::PackageBuilder(cs) => {
             let mut b = PackageBuilder::new();
             for c in cs {
-                b.add_element(&Raw(real(c)));
+                // the element is handed over as the real object (its own children pre-serialised), so that the builder's
+                // sink interface sees the element's own call pattern (byte / word / dword / qword / vec)
+                real_with(c, &mut |a| b.add_element(a));
             }
             kk(&b)
         }
